@@ -51,6 +51,10 @@ func (rt *runtime) newRegExpObject(pattern string, flags string) *object {
 
 	re2pattern, err := parser.TransformRegExp(pattern)
 	if err != nil {
+		if re2pattern == "" {
+			// Not a valid pattern even in JavaScript: ES5 15.10.4.1 asks for a SyntaxError.
+			panic(rt.panicSyntaxError("Invalid regular expression: %s", err.Error()))
+		}
 		panic(rt.panicTypeError("Invalid regular expression: %s", err.Error()))
 	}
 	if len(re2flags) > 0 {
